@@ -139,7 +139,7 @@ def spec_for(case):
     from . import c09race, c09sys
     if "scenario" in case:
         return c09sys
-    if "scn" in case:
+    if "scn" in case or "long_wait" in case:
         return c09race
     return SPEC
 
@@ -150,6 +150,15 @@ def run_check(tier, seed):
     from .. import engine
     from . import c09sys
     t0 = time.time()
+    # the token-race / long-token-wait tier is mostly idle waiting: it runs as a child process beside the others
+    import subprocess
+    import sys as _sys
+    import tempfile
+    from .. import sut as _sut
+    _sut.build()
+    race_out = tempfile.mktemp(prefix="rv-c09race-", suffix=".json", dir="/dev/shm")
+    race_proc = subprocess.Popen([_sys.executable, "-m", "rv.props.c09race", tier, str(seed), race_out, "8"],
+                                 cwd=engine.VERIF)
     code, ev = engine.run_property("rv.props.c09", tier, seed)
     problems, stats, samples = c09sys.explore(tier, seed)
     cov = ev["coverage"]
@@ -204,8 +213,8 @@ def run_check(tier, seed):
         with open(_os.path.join(rdir, fn)) as f:
             rp = _json.load(f)
         mod = spec_for(rp["case"])
-        if mod is SPEC:
-            continue
+        if mod is SPEC or "long_wait" in rp["case"]:
+            continue    # (the long-wait cases are part of every run of the token-race tier anyway)
         try:
             o = mod.run_case(rp["case"], tier)
         except runner.Inconclusive:
@@ -222,12 +231,28 @@ def run_check(tier, seed):
                 ev["violations"] += 1
                 code = 1
     # token-race tier (fault enumeration over every read of the jobserver pipe)
-    rproblems, rstats, rsamples = c09race.explore(tier, seed)
+    race_proc.wait()
+    try:
+        with open(race_out) as f:
+            _r = _json.load(f)
+        rproblems, rstats, rsamples = _r["problems"], _r["stats"], _r["samples"]
+    except (OSError, ValueError):
+        _sys.stderr.write("token-race tier did not report\n")
+        rproblems, rstats, rsamples = [], {"runs": 0, "race_lost": 0, "inconclusive": 0, "scenarios": {}}, []
+        if code == 0:
+            code = 2
+    finally:
+        try:
+            _os.unlink(race_out)
+        except OSError:
+            pass
     cov["token_race"] = dict(rstats, exhaustive=True, samples=rsamples,
                              rule="small ungated builds under a harness jobserver (1-2 tokens): every read() of the token "
                                   "pipe by any redo process loses the race in turn (shim takes the byte first and hands it "
                                   "to the harness, which keeps it or returns it 0.4 s later); the build must end with exit "
-                                  "0 and from-scratch contents. Non-trivial = the byte was really taken.")
+                                  "0 and from-scratch contents. Plus the timer-expiry cases: a process that parked its token for a "
+                                  "lock wait finds every token gone for 70 s (150 s thorough) and must keep waiting, not "
+                                  "abort. Non-trivial = the byte was really taken.")
     cov["evaluations"] += rstats["runs"]
     cov["distinct_nontrivial"] += rstats["race_lost"]
     cov["inconclusive_cases"] += rstats["inconclusive"]
@@ -240,9 +265,13 @@ def run_check(tier, seed):
         if key in seen:
             continue
         seen.add(key)
-        scn = [x for x in c09race.scenarios(tier, seed) if x["name"] == res["name"]][0]
         v = {"property": "C09", "clause": "token-race/" + p["clause"], "detail": p["detail"], "sig": p["sig"], "step": 0}
-        path = engine.write_replay("C09", {"scn": scn, "k": res["k"], "ret": res["ret"]}, v)
+        if "long_wait" in res:
+            rcase = {"long_wait": res["long_wait"]}
+        else:
+            scn = [x for x in c09race.scenarios(tier, seed) if x["name"] == res["name"]][0]
+            rcase = {"scn": scn, "k": res["k"], "ret": res["ret"]}
+        path = engine.write_replay("C09", rcase, v)
         print("VIOLATION property=C09 replay=%s" % path)
         print("  clause=%s sig=%s" % (v["clause"], p["sig"]))
         ev["violations"] += 1
